@@ -88,7 +88,9 @@ func (p Profile) label(r *rand.Rand, allowIface bool) Label {
 }
 
 // dedupe keeps C06's well-formedness: no repeated name, no repeated type-only key.
-func dedupe(ls []Label) []Label {
+// For parameter lists (bySub) two type-only values of one type are told apart by their subtype - the use
+// case subtypes exist for; result lists are mapped back by type alone, so there the type is the key.
+func dedupe(ls []Label, bySub bool) []Label {
 	seenN := map[string]bool{}
 	seenT := map[string]bool{}
 	out := []Label{}
@@ -99,10 +101,14 @@ func dedupe(ls []Label) []Label {
 			}
 			seenN[l.Name] = true
 		} else {
-			if seenT[l.Type] {
+			k := l.Type
+			if bySub {
+				k += "/" + l.Sub
+			}
+			if seenT[k] {
 				continue
 			}
-			seenT[l.Type] = true
+			seenT[k] = true
 		}
 		out = append(out, l)
 	}
@@ -126,8 +132,8 @@ func (p Profile) fn(r *rand.Rand, maxIn, maxOut int, target bool) FuncSpec {
 	for i := 0; i < nout; i++ {
 		f.Out = append(f.Out, p.label(r, !target && r.Intn(3) == 0))
 	}
-	f.In = dedupe(f.In)
-	f.Out = dedupe(f.Out)
+	f.In = dedupe(f.In, true)
+	f.Out = dedupe(f.Out, false)
 	if f.Form == "pos" && plain(f.In) && len(f.In) > 0 && r.Intn(5) == 0 {
 		// positional parameters may repeat a type
 		f.In = append(f.In, f.In[r.Intn(len(f.In))])
